@@ -11,6 +11,7 @@ nAB == <<97, 98>>   nSpace == <<97, 32, 98>>   nE == <<233>>   nEmoji == <<12851
 nDigit == <<48>>    nUnder == <<95, 97, 49>>
 \* names that need escapes in at least one quoting style
 nSq == <<97, 39>>   nDq == <<34, 98>>   nBs == <<92>>   nLf == <<97, 10>>   nCtl == <<1>>   nSlash == <<47>>   nTab == <<9>>  nVt == <<11>>
+nC1 == <<133>>  nC1b == <<97, 159>>
 nBmp == <<8364>>   nHighBmp == <<65533>>  nE000 == <<57344>>  nD7FF == <<55295>>  nSupp == <<65536>>  nMaxCp == <<1114111>>  nDel == <<127>>
 
 RelB == ERel(<<N1(cB)>>)
@@ -26,7 +27,7 @@ PlainSegs == <<N1(cA), N1(nAB), N1(nSpace), N1(nE), N1(nEmoji), N1(nEmpty), N1(n
                Child(<<SName(cA), SName(cB)>>), Child(<<SIndex(0), SWild, SSlice(1, ABSENT, ABSENT)>>), Child(<<SName(cA), SIndex(-1)>>),
                Desc(<<SName(cA)>>), Desc(<<SWild>>), Desc(<<SIndex(0)>>), Desc(<<SName(cA), SIndex(1)>>), Desc(<<SName(nSpace)>>)>>
 EscSegs == <<N1(nSq), N1(nDq), N1(nBs), N1(nLf), N1(nCtl), N1(nSlash), N1(nTab), N1(nVt), N1(nBmp), N1(nHighBmp), N1(nE000),
-             N1(nD7FF), N1(nSupp), N1(nMaxCp), N1(nDel), Desc(<<SName(nSq)>>), Child(<<SName(nDq), SName(nSq)>>)>>
+             N1(nD7FF), N1(nSupp), N1(nMaxCp), N1(nDel), N1(nC1), N1(nC1b), Desc(<<SName(nSq)>>), Child(<<SName(nDq), SName(nSq)>>)>>
 
 Lit(v) == ELit(v)
 FilterLx == <<
@@ -50,7 +51,7 @@ FilterLx == <<
    Cmp(">", EFn("count", <<ERel(<<N1(cX), F1(LAnd(<<T1(RelA), T1(RelB), LTest(TRUE, ERel(<<N1(cC)>>))>>))>>)>>), Lit(JInt(0))),   \* count(@.x[?@.a && @.b && !@.c]) > 0
    T1(EFn("match", <<EFn("value", <<ERel(<<F1(LOr(<<T1(RelA), T1(RelB), T1(AbsA)>>))>>)>>), Lit(JStr(cA))>>)) >>
 EscLx == << Cmp("==", RelA, Lit(JStr(nSq))), Cmp("==", RelA, Lit(JStr(nDq))), Cmp("==", RelA, Lit(JStr(nBs))), Cmp("==", RelA, Lit(JStr(nLf))),
-            Cmp("==", ERel(<<N1(nSq)>>), Lit(JStr(nSupp))), T1(EFn("match", <<RelA, Lit(JStr(<<97, 92, 46>>))>>)), T1(ERel(<<N1(nDq), N1(nBs)>>)) >>
+            Cmp("==", ERel(<<N1(nSq)>>), Lit(JStr(nSupp))), Cmp("==", RelA, Lit(JStr(nDel))), Cmp("!=", RelA, Lit(JStr(nC1b))), T1(EFn("match", <<RelA, Lit(JStr(<<97, 92, 46>>))>>)), T1(ERel(<<N1(nDq), N1(nBs)>>)) >>
 FilterSegs == [i \in 1..Len(FilterLx) |-> F1(FilterLx[i])]
 EscFilterSegs == [i \in 1..Len(EscLx) |-> F1(EscLx[i])]
 
@@ -78,6 +79,9 @@ BadLx == << T1(EFn("length", <<ERel(<<>>)>>)),                                  
             Cmp("==", ERel(<<I1(BIG + 1)>>), Lit(JInt(1))), Cmp("==", EAbs(<<N1(cA), I1(0 - BIG - 1)>>), Lit(JInt(1))),     \* out-of-range index inside a singular query
             T1(ERel(<<I1(BIG + 2)>>)), Cmp(">", EFn("length", <<ERel(<<I1(0 - BIG - 2)>>)>>), Lit(JInt(0))) >>
 BadSegs == [i \in 1..Len(BadLx) |-> F1(BadLx[i])]
+           \o [i \in 1..6 |-> Child(<<SIndex(0), SFilter(BadLx[i * 3])>>)]                              \* $[0, ?<ill-typed>]
+           \o <<Child(<<SIndex(0), SIndex(BIG + 1)>>), Child(<<SName(cA), SSlice(ABSENT, 0 - BIG - 1, ABSENT), SWild>>),
+                Desc(<<SIndex(0), SIndex(0 - BIG - 1)>>)>>
            \o <<I1(BIG + 1), I1(0 - BIG - 1), Child(<<SSlice(BIG + 1, ABSENT, ABSENT)>>), Child(<<SSlice(ABSENT, 0 - BIG - 1, ABSENT)>>),
                 Child(<<SSlice(ABSENT, ABSENT, BIG + 1)>>), Child(<<SSlice(1, 2, 0 - BIG - 2)>>)>>
 
